@@ -141,6 +141,12 @@ Proof.
   all: try (left; simpl; rewrite ?Cl by assumption; simpl; lia).
   - left. apply next_job_in in Heqo. destruct Heqo as [A B]. simpl. rewrite B. simpl. lia.
   - left. apply next_job_in in Heqo. destruct Heqo as [A B]. simpl. rewrite B. simpl. lia.
+  - left; cbn [norm cnt]; rewrite (Cl l) by assumption; unfold set_prog, log; simpl;
+    match goal with Hh : ipr s _ |- _ => simpl in Hh end;
+    repeat match goal with H : _ /\ _ |- _ => destruct H | H : exists _, _ |- _ => destruct H end;
+    repeat match goal with H : jdel _ = _ |- _ => rewrite H end; simpl;
+    repeat match goal with |- context[Nat.eqb ?a ?b] => destruct (Nat.eqb a b) end;
+    repeat match goal with |- context[fcancelled ?x] => destruct (fcancelled x) end; simpl; lia.
   - left. etransitivity; [apply cnt_norm|]. rewrite cnt_app. rewrite (Cl l) by assumption. rewrite Cl by (apply Forall_cbs; intros; exact I).
     rewrite cnt_cbs. simpl. lia.
   - left. etransitivity; [apply cnt_norm|]. simpl. rewrite Cl by (apply Forall_tl; assumption).
